@@ -15,6 +15,7 @@ import FontVerif.Lemmas.TentLemmas
 import FontVerif.Lemmas.NormalizeLemmas
 import FontVerif.Lemmas.DeltaLemmas
 import FontVerif.Lemmas.IvsLemmas
+import FontVerif.Lemmas.MetricsLemmas
 set_option linter.unusedVariables false
 namespace FontVerif.C11
 open FontVerif FontVerif.Tent
@@ -888,5 +889,93 @@ example : retrieve (buildDirect 2 [[(0, 5)], [], [(1, -40000), (0, 1)]]) 2 0 2 =
     some (dense (normalizeDeltaSet [(1, -40000), (0, 1)]) 2) :=
   (builder_retrievable_direct 2 [[(0, 5)], [], [(1, -40000), (0, 1)]] (by decide) (by omega)
     (by decide) 2 (by decide)).2
+
+/-! ## 6. metric lookup (`GlyphMetrics::advance_width` / `left_side_bearing`, hmtx + HVAR)
+
+`hMetrics` are the `numberOfHMetrics` long records `(advance, lsb)`, `lsbs` the trailing side
+bearings; values are in font units before `FixedScaleFactor::apply`. -/
+
+open Metrics
+
+/-- **advance_lookup**: a glyph with a long metric gets its own advance; every later glyph repeats
+the *last* long metric's advance. -/
+theorem advance_lookup (hMetrics : List (Int × Int)) (gid : Nat) :
+    (∀ h : gid < hMetrics.length, baseAdvance hMetrics gid = hMetrics[gid].1) ∧
+    (∀ h : hMetrics ≠ [], hMetrics.length ≤ gid → baseAdvance hMetrics gid = (hMetrics.getLast h).1) ∧
+    (hMetrics = [] → baseAdvance hMetrics gid = 0) := by
+  unfold baseAdvance
+  refine ⟨fun h => ?_, fun h hg => ?_, fun h => ?_⟩
+  · rw [List.getElem?_eq_getElem h]
+  · rw [List.getElem?_eq_none hg, List.getLast?_eq_some_getLast h]
+  · subst h; rfl
+
+/-- **lsb_lookup**: a glyph with a long metric gets that record's side bearing; a later glyph gets
+entry `gid − numberOfHMetrics` of the trailing array (0 if the array is too short). -/
+theorem lsb_lookup (hMetrics : List (Int × Int)) (lsbs : List Int) (gid : Nat) :
+    (∀ h : gid < hMetrics.length, baseLsb hMetrics lsbs gid = hMetrics[gid].2) ∧
+    (hMetrics.length ≤ gid → baseLsb hMetrics lsbs gid = lsbs.getD (gid - hMetrics.length) 0) := by
+  unfold baseLsb
+  refine ⟨fun h => ?_, fun hg => ?_⟩
+  · rw [List.getElem?_eq_getElem h]
+  · rw [List.getElem?_eq_none hg, List.getD_eq_getElem?_getD]
+
+/-- **metric_delta_integer_part**: the amount added to the base metric is
+`Fixed::from_i32(delta).to_f64() as i32`: exactly `delta` whenever `|delta| < 2¹⁵` — and in general
+`delta as i16` (this wrap is known finding `C11-metric-delta-wraps-16bit`). -/
+theorem metric_delta_integer_part (d : Int) :
+    deltaInt d = wrapI16 d ∧ (inI16 d → deltaInt d = d) :=
+  ⟨deltaInt_eq d, fun h => by rw [deltaInt_eq, wrapI16_id h]⟩
+
+/-- **advance_is_base_plus_delta**: `None` beyond the glyph count; otherwise the hmtx advance plus
+the (integer) HVAR delta, or the bare hmtx advance when no delta applies. -/
+theorem advance_is_base_plus_delta (glyphCount : Nat) (hMetrics : List (Int × Int)) (gid : Nat) :
+    (glyphCount ≤ gid → ∀ delta, advanceUnits glyphCount hMetrics gid delta = none) ∧
+    (gid < glyphCount → advanceUnits glyphCount hMetrics gid none = some (baseAdvance hMetrics gid)) ∧
+    (gid < glyphCount → ∀ d, inI16 d →
+      advanceUnits glyphCount hMetrics gid (some d) = some (baseAdvance hMetrics gid + d)) := by
+  unfold advanceUnits
+  refine ⟨fun h delta => by simp [h], fun h => ?_, fun h d hd => ?_⟩
+  · have e : ¬ gid ≥ glyphCount := by omega
+    simp [e]
+  · have e : ¬ gid ≥ glyphCount := by omega
+    simp only [e, if_false]
+    rw [(metric_delta_integer_part d).2 hd]
+
+/-- **lsb_is_base_plus_delta**. -/
+theorem lsb_is_base_plus_delta (glyphCount : Nat) (hMetrics : List (Int × Int)) (lsbs : List Int)
+    (gid : Nat) :
+    (glyphCount ≤ gid → ∀ delta, lsbUnits glyphCount hMetrics lsbs gid delta = none) ∧
+    (gid < glyphCount →
+      lsbUnits glyphCount hMetrics lsbs gid none = some (baseLsb hMetrics lsbs gid)) ∧
+    (gid < glyphCount → ∀ d, inI16 d →
+      lsbUnits glyphCount hMetrics lsbs gid (some d) = some (baseLsb hMetrics lsbs gid + d)) := by
+  unfold lsbUnits
+  refine ⟨fun h delta => by simp [h], fun h => ?_, fun h d hd => ?_⟩
+  · have e : ¬ gid ≥ glyphCount := by omega
+    simp [e]
+  · have e : ¬ gid ≥ glyphCount := by omega
+    simp only [e, if_false]
+    rw [(metric_delta_integer_part d).2 hd]
+
+/-- **delta_set_index_map_get**: reading a `DeltaSetIndexMap` whose entries are packed as
+`outer << bitCount | inner` in `entrySize` big-endian bytes returns entry `min(gid, mapCount − 1)`
+(glyphs beyond the map reuse the last entry) split back into exactly `(outer, inner)`. -/
+theorem delta_set_index_map_get (es bc : Nat) (hes : es = 1 ∨ es = 2 ∨ es = 3 ∨ es = 4)
+    (hbc1 : 1 ≤ bc) (hbc2 : bc ≤ 16) (entries : List (Nat × Nat))
+    (hfit : ∀ e ∈ entries, e.2 < 2 ^ bc ∧ e.1 < 65536 ∧ e.1 * 2 ^ bc + e.2 < 256 ^ es)
+    (gid : Nat) (hne : 0 < entries.length) :
+    dsimGet ((es - 1) * 16 + (bc - 1)) entries.length
+      (entries.flatMap fun e => beBytes es (e.1 * 2 ^ bc + e.2)) gid =
+      entries[min gid (entries.length - 1)]? :=
+  dsimGet_packed es bc hes hbc1 hbc2 entries hfit gid hne
+
+/-- **implicit_index**: without an advance map the delta set is `(0, gid)`. -/
+theorem implicit_index (gid : Nat) (h : gid < 65536) : implicitIndex gid = (0, gid) := by
+  unfold implicitIndex; rw [Nat.mod_eq_of_lt h]
+
+example : baseAdvance [(500, 10), (600, 20)] 5 = 600 := by decide
+example : baseLsb [(500, 10), (600, 20)] [7, 8, 9] 3 = 8 := by decide
+example : advanceUnits 9 [(500, 10), (600, 20)] 5 (some (-25)) = some 575 := by decide
+example : dsimGet 0x11 2 [0, 5, 1, 3] 7 = some (64, 3) := by decide
 
 end FontVerif.C11
